@@ -474,6 +474,17 @@ func degraded(w *World, req wReq, stranger util.Uint160) map[string][]Signer {
 		out["committee-account"] = []Signer{bare("committee", w.Committee.Hash, transaction.Global)}
 		out["alphabet-account"] = []Signer{bare("alphabet", w.Alphabet.Hash, transaction.Global)}
 	}
+	// every threshold over the committee's keys: exactly the documented ones
+	// (2n/3+1, n/2+1) may count, their neighbours never
+	pubs := make(keys.PublicKeys, len(w.Privs))
+	for i, p := range w.Privs {
+		pubs[i] = p.PublicKey()
+	}
+	for m := 1; m <= len(pubs); m++ {
+		if h, ok := multisigHash(m, pubs); ok && h != w.Alphabet.Hash && h != w.Committee.Hash {
+			out[fmt.Sprintf("threshold-%d-of-%d", m, len(pubs))] = []Signer{bare(fmt.Sprintf("%d-of-%d", m, len(pubs)), h, transaction.Global)}
+		}
+	}
 	for ai, alt := range req.alts {
 		var full []Signer
 		for i, a := range alt {
@@ -715,6 +726,8 @@ func classOf(name string) string {
 		return "swap_threshold"
 	case name == "single":
 		return "single"
+	case strings.HasPrefix(name, "threshold-"):
+		return "other_threshold"
 	}
 	return "missing"
 }
